@@ -348,3 +348,7 @@ ENTRIES["C04"]["text"] += (" Props/Tie.sortCost_is_source ([G]): the comparators
     "opw_entry_points_are_source: answers are normalised next to the reference, then sorted, then filtered.")
 ENTRIES["C10"]["text"] += (" TieColl.tasks_is_source ([G]): the task enumeration of detect_collisions_with_skips and check_required, parsed from the CURRENT source "
     "(nested for / if / if-let blocks around tasks.push, each push checked to carry the pose and mesh of its own indices), is the model's `tasks` in push order.")
+ENTRIES["C14"]["text"] += (" TieColl.nonCollidingOffsets_is_source ([G]): non_colliding_offsets as the CURRENT source has it (one recognised idiom incl. the repairs D21 / D23) "
+    "is the model's nonCollidingOffsets; TieColl.tasks_is_source: the skip set reaches the task enumeration as in the model.")
+ENTRIES["C10"]["text"] += (" TieColl.robotBody_is_source ([G]): collision_details / near / collides / process_collision_tasks as wired in the CURRENT source (which table, "
+    "which mode override, no skips) are the model's functions.")
